@@ -317,7 +317,8 @@ def rule_complex_nonzero(mod, rep, floor=2):
                 part1_nonzero_on_edge = (nonzero_pred == taken_true)
                 # both tests have the same sense (both != 0 or both == 0): for != the chain must continue on "is zero"; for == on "is nonzero"... i.e. an OR of nonzero-ness
                 same_sense = (C2.pred in ("une", "one")) == nonzero_pred
-                ok = (not same_sense) or (not part1_nonzero_on_edge if nonzero_pred else part1_nonzero_on_edge)
+                # `r != 0 || i != 0` (is nonzero) and `r == 0 && i == 0` (is zero) both look at the second part exactly where the first part is zero
+                ok = (not same_sense) or (not part1_nonzero_on_edge)
                 rep.check(ok, "CPLX-NZ", "%s#%s@%s" % (f.name, "nz", C1.ln), "second part is tested where the first part is zero (either part nonzero counts)",
                           "the imaginary part is only looked at when the real part is nonzero (or vice versa): an entry with one zero part is treated as zero", C1.loc, f.name)
     return n
